@@ -18,6 +18,7 @@ package harness
 
 import (
 	"bytes"
+	"io"
 	"encoding/base64"
 	"math/rand"
 	"crypto/sha256"
@@ -47,6 +48,7 @@ import (
 	"github.com/comdex-official/comdex/app/wasm/bindings"
 	assettypes "github.com/comdex-official/comdex/x/asset/types"
 	"github.com/comdex-official/comdex/x/auction"
+	"github.com/comdex-official/comdex/x/auctionsV2"
 	auctiontypes "github.com/comdex-official/comdex/x/auction/types"
 	auctionsV2types "github.com/comdex-official/comdex/x/auctionsV2/types"
 	collectortypes "github.com/comdex-official/comdex/x/collector/types"
@@ -104,6 +106,7 @@ type c12World struct {
 	a4, c4                    uint64 // asset of the second lend pool and its c-asset
 	lendPool2, lendPairX      uint64 // second pool, cross-pool pair a1 -> a4 (bridged through the transit assets a3 / a1)
 	borrowAX                  uint64 // A's cross-pool borrow
+	fixedPair, vaultF         uint64 // extended pair a1 -> a2 with AssetOutOraclePrice=false (fixed debt price) and A's vault on it
 	twaKeys                   map[string]uint64
 	needs                     map[string][]string // case key -> observed price read set
 	liqPair, liqPool          uint64
@@ -273,7 +276,26 @@ func c12Build(t *testing.T) *c12World {
 	_ = pair13
 	w.deliverLive(&vaulttypes.MsgCreateRequest{From: w.A.String(), AppId: w.appVault, ExtendedPairVaultId: w.extPair, AmountIn: sdk.NewInt(3000000000), AmountOut: sdk.NewInt(400000000)}, "vault A")
 	w.deliverLive(&vaulttypes.MsgCreateRequest{From: w.D.String(), AppId: w.appVault, ExtendedPairVaultId: w.extPair, AmountIn: sdk.NewInt(3000000000), AmountOut: sdk.NewInt(400000000)}, "vault D")
+	// a fixed-price-debt pair: nothing upstream of the auction activators reads the debt asset's feed
+	w.must(w.app.AssetKeeper.WasmAddExtendedPairsVaultRecords(w.ctx, &bindings.MsgAddExtendedPairsVault{
+		AppID: w.appVault, PairID: pair12, StabilityFee: sdk.NewDecWithPrec(2, 2), ClosingFee: sdk.NewDec(0),
+		LiquidationPenalty: sdk.NewDecWithPrec(15, 2), DrawDownFee: sdk.NewDecWithPrec(1, 2), IsVaultActive: true,
+		DebtCeiling: sdk.NewInt(1000000000000000000), DebtFloor: sdk.NewInt(100000000), IsStableMintVault: false,
+		MinCr: sdk.NewDecWithPrec(23, 1), PairName: "AONE-F", AssetOutOraclePrice: false, AssetOutPrice: 1000000, MinUsdValueLeft: 1000000,
+	}), "fixed-price ext pair")
+	if eps, ok := w.app.AssetKeeper.GetPairsVaults(w.ctx); ok {
+		for _, e := range eps {
+			if e.PairName == "AONE-F" {
+				w.fixedPair = e.Id
+			}
+		}
+	}
+	w.deliverLive(&vaulttypes.MsgCreateRequest{From: w.A.String(), AppId: w.appVault, ExtendedPairVaultId: w.fixedPair, AmountIn: sdk.NewInt(3000000000), AmountOut: sdk.NewInt(400000000)}, "vault F")
 	for _, v := range w.app.VaultKeeper.GetVaults(w.ctx) {
+		if v.Owner == w.A.String() && v.ExtendedPairVaultID == w.fixedPair {
+			w.vaultF = v.Id
+			continue
+		}
 		if v.Owner == w.A.String() {
 			w.vaultA = v.Id
 		}
@@ -812,6 +834,25 @@ func c12Catalogue() []c12Case {
 		{"liquidationsV2.MsgLiquidateInternalKeeper", "B", false, false, "lend", "a1a2", func(w *c12World, s sdk.AccAddress) sdk.Msg {
 			return &liquidationsV2types.MsgLiquidateInternalKeeperRequest{From: s.String(), LiqType: 1, Id: w.borrowA}
 		}, c12Unhealthy, "borrow"},
+		// shapes that reach the auction activators WITHOUT a prior ratio read of the debt price
+		{"liquidationsV2.MsgLiquidateInternalKeeper", "B", false, false, "vault", "a1a2", func(w *c12World, s sdk.AccAddress) sdk.Msg {
+			return &liquidationsV2types.MsgLiquidateInternalKeeperRequest{From: s.String(), LiqType: 0, Id: w.vaultF}
+		}, c12Unhealthy, "fixedvault"},
+		{"liquidation.MsgLiquidateVault", "B", false, false, "vault", "a1", func(w *c12World, s sdk.AccAddress) sdk.Msg {
+			return &liquidationtypes.MsgLiquidateVaultRequest{From: s.String(), AppId: w.appVault, VaultId: w.vaultF}
+		}, c12Unhealthy, "fixed"},
+		{"liquidationsV2.MsgLiquidateExternalKeeper", "B", false, false, "vault", "a1a2", func(w *c12World, s sdk.AccAddress) sdk.Msg {
+			return &liquidationsV2types.MsgLiquidateExternalKeeperRequest{From: s.String(), AppId: w.appVault, Owner: w.A.String(),
+				CollateralToken: coin("uasset1", 100000000), DebtToken: coin("uasset2", 50000000), CollateralAssetId: w.a1, DebtAssetId: w.a2, IsDebtCmst: false}
+		}, func(w *c12World, ctx sdk.Context) {
+			c12Unhealthy(w, ctx)
+			m := &liquidationsV2types.MsgAppReserveFundsRequest{AppId: w.appVault, AssetId: w.a2, TokenQuantity: coin("uasset2", 5000000), From: w.B.String()}
+			if h := w.app.MsgServiceRouter().Handler(m); h != nil {
+				if _, err := h(ctx, m); err != nil {
+					w.t.Fatalf("app reserve funds: %v", err)
+				}
+			}
+		}, ""},
 	}
 }
 
@@ -1559,6 +1600,7 @@ func TestC14(t *testing.T) {
 		}
 	}
 	c14PriceSubsets(t, tr, w, cat)
+	c14Units(t, tr, w)
 	c14Sweeps(t, tr, w)
 	if thorough() {
 		// the same control settings through the real DeliverTx (baseapp's own message cache) for every handler the property names
@@ -1646,6 +1688,197 @@ func c14PriceSubsets(t *testing.T, tr *Trace, w *c12World, cat []c12Case) {
 		run(rest, true, true)
 	}
 	tr.Set("price_cells", cells)
+}
+
+// ---------------------------------------------------------------------------------------------
+// begin-block units that read prices: liquidation sweep of the fixed-price-debt vault, auction price update / restart
+
+type c14Unit struct {
+	name  string
+	stage func(w *c12World, ctx sdk.Context) sdk.Context // brings the state to just before the unit (all feeds active)
+	run   func(w *c12World, ctx sdk.Context)
+	foot  func(w *c12World, ctx sdk.Context) string // the records the unit works on
+	needs func(w *c12World) []string               // nil: observe the unit's own reads with the store tracer
+}
+
+func (w *c12World) v2Foot(ctx sdk.Context) string {
+	var b bytes.Buffer
+	_, ok := w.app.VaultKeeper.GetVault(ctx, w.vaultF)
+	fmt.Fprintf(&b, "vaultF=%v;", ok)
+	mine := map[uint64]bool{}
+	for _, lv := range w.app.NewliqKeeper.GetLockedVaults(ctx) {
+		if lv.OriginalVaultId == w.vaultF && lv.ExtendedPairId == w.fixedPair {
+			fmt.Fprintf(&b, "locked%d=%s/%s;", lv.LockedVaultId, lv.CollateralToken, lv.TargetDebt)
+			mine[lv.LockedVaultId] = true
+		}
+	}
+	for _, a := range w.app.NewaucKeeper.GetAuctions(ctx) {
+		if !mine[a.LockedVaultId] || a.AppId != w.appVault {
+			continue // the sweep also works on other positions; only vault F's auction is this unit's footprint
+		}
+		fmt.Fprintf(&b, "auc%d=%s/%s/%s/%s/%d/%d;", a.AuctionId, a.CollateralTokenAuctionPrice, a.CollateralTokenOraclePrice, a.DebtTokenOraclePrice, a.CollateralToken, a.StartTime.Unix(), a.EndTime.Unix())
+	}
+	return b.String()
+}
+
+func (w *c12World) v1Foot(ctx sdk.Context) string {
+	var b bytes.Buffer
+	for _, a := range w.app.AuctionKeeper.GetDutchAuctions(ctx, w.appVault) {
+		fmt.Fprintf(&b, "dutch%d=%s/%s/%s/%s/%d/%d;", a.AuctionId, a.OutflowTokenCurrentPrice, a.OutflowTokenInitialPrice, a.InflowTokenCurrentPrice, a.OutflowTokenCurrentAmount, a.StartTime.Unix(), a.EndTime.Unix())
+	}
+	return b.String()
+}
+
+func (w *c12World) mustDeliver(ctx sdk.Context, m sdk.Msg, what string) {
+	h := w.app.MsgServiceRouter().Handler(m)
+	if h == nil {
+		w.t.Fatalf("%s: no handler", what)
+	}
+	if _, err := h(ctx, m); err != nil {
+		w.t.Fatalf("%s: %v", what, err)
+	}
+}
+
+func c14UnitCatalogue() []c14Unit {
+	after := func(ctx sdk.Context, d time.Duration) sdk.Context {
+		return ctx.WithBlockTime(ctx.BlockTime().Add(d)).WithBlockHeight(ctx.BlockHeight() + 1 + int64(d/(6*time.Second)))
+	}
+	startV2 := func(w *c12World, ctx sdk.Context) {
+		c12Unhealthy(w, ctx)
+		w.mustDeliver(ctx, &liquidationsV2types.MsgLiquidateInternalKeeperRequest{From: w.B.String(), LiqType: 0, Id: w.vaultF}, "start v2 auction")
+	}
+	startV1 := func(vault func(w *c12World) uint64) func(w *c12World, ctx sdk.Context) {
+		return func(w *c12World, ctx sdk.Context) {
+			c12Unhealthy(w, ctx)
+			w.mustDeliver(ctx, &liquidationtypes.MsgLiquidateVaultRequest{From: w.B.String(), AppId: w.appVault, VaultId: vault(w)}, "start gen-1 auction")
+		}
+	}
+	runV2Auc := func(w *c12World, ctx sdk.Context) { auctionsV2.BeginBlocker(ctx, w.app.NewaucKeeper) }
+	runV1Auc := func(w *c12World, ctx sdk.Context) {
+		auction.BeginBlocker(ctx, w.app.AuctionKeeper, w.app.AssetKeeper, w.app.CollectorKeeper, w.app.EsmKeeper)
+	}
+	vF := func(w *c12World) uint64 { return w.vaultF }
+	vA := func(w *c12World) uint64 { return w.vaultA }
+	return []c14Unit{
+		{"liquidationsV2.BeginBlocker/sweep-fixed-price-vault", func(w *c12World, ctx sdk.Context) sdk.Context { c12Unhealthy(w, ctx); return ctx },
+			func(w *c12World, ctx sdk.Context) { liquidationsV2.BeginBlocker(ctx, abci.RequestBeginBlock{}, w.app.NewliqKeeper) },
+			(*c12World).v2Foot,
+			// the sweep visits every position; what vault F's liquidation reads is what the same code reads as a message
+			func(w *c12World) []string { return w.needs["liquidationsV2.MsgLiquidateInternalKeeper/fixedvault"] }},
+		{"auctionsV2.BeginBlocker/update-dutch", func(w *c12World, ctx sdk.Context) sdk.Context { startV2(w, ctx); return after(ctx, 12*time.Second) }, runV2Auc, (*c12World).v2Foot, nil},
+		{"auctionsV2.BeginBlocker/restart-dutch", func(w *c12World, ctx sdk.Context) sdk.Context { startV2(w, ctx); return after(ctx, 2*time.Hour) }, runV2Auc, (*c12World).v2Foot, nil},
+		{"auction.BeginBlocker/update-dutch-fixed-price", func(w *c12World, ctx sdk.Context) sdk.Context { startV1(vF)(w, ctx); return after(ctx, 12*time.Second) }, runV1Auc, (*c12World).v1Foot, nil},
+		{"auction.BeginBlocker/restart-dutch-fixed-price", func(w *c12World, ctx sdk.Context) sdk.Context { startV1(vF)(w, ctx); return after(ctx, 10*time.Minute) }, runV1Auc, (*c12World).v1Foot, nil},
+		{"auction.BeginBlocker/update-dutch-oracle-price", func(w *c12World, ctx sdk.Context) sdk.Context { startV1(vA)(w, ctx); return after(ctx, 12*time.Second) }, runV1Auc, (*c12World).v1Foot, nil},
+		{"auction.BeginBlocker/restart-dutch-oracle-price", func(w *c12World, ctx sdk.Context) sdk.Context { startV1(vA)(w, ctx); return after(ctx, 10*time.Minute) }, runV1Auc, (*c12World).v1Foot, nil},
+	}
+}
+
+// c14Units: every unit × {all feeds on (must change its records), each needed feed off, all needed off, every feed off
+// (must leave its records untouched), only the un-needed feeds off (must change)} × {inactive, missing}.
+func c14Units(t *testing.T, tr *Trace, w *c12World) {
+	cells := 0
+	for _, u := range c14UnitCatalogue() {
+		fresh := func() sdk.Context {
+			ctx, _ := w.ctx.CacheContext()
+			ctx = ctx.WithBlockHeight(ctx.BlockHeight() + 3).WithBlockTime(ctx.BlockTime().Add(18 * time.Second))
+			return u.stage(w, ctx)
+		}
+		var needs []string
+		if u.needs != nil {
+			needs = u.needs(w)
+		} else {
+			ctx := fresh()
+			var buf bytes.Buffer
+			tctx := ctx.WithMultiStore(ctx.MultiStore().(interface {
+				SetTracer(io.Writer) storetypes.MultiStore
+			}).SetTracer(&buf).CacheMultiStore())
+			try(func() { u.run(w, tctx) })
+			needs = w.readSet(ctx, buf.String())
+		}
+		var rest []string
+		for _, a := range c12AssetNames {
+			in := false
+			for _, x := range needs {
+				in = in || x == a
+			}
+			if !in {
+				rest = append(rest, a)
+			}
+		}
+		subsets := [][]string{nil}
+		for _, x := range needs {
+			subsets = append(subsets, []string{x})
+		}
+		if len(needs) > 1 {
+			subsets = append(subsets, needs)
+		}
+		subsets = append(subsets, c12AssetNames, rest)
+		for si, sub := range subsets {
+			for _, missing := range []bool{false, true} {
+				if si == 0 && missing {
+					continue
+				}
+				ctx := fresh()
+				scn := c12Scn{price: strings.Join(sub, ","), missing: missing}
+				if len(sub) == 0 {
+					scn.price = "all"
+				}
+				w.priceOff(ctx, scn)
+				before := u.foot(w, ctx)
+				panicked, pmsg := try(func() { u.run(w, ctx) })
+				changed := u.foot(w, ctx) != before
+				base := si == 0 || si == len(subsets)-1
+				tr.Line("grd.begin", u.name, fmt.Sprintf("off-%s/%s", scn.price, scn.mode()))
+				tr.Line("grd.unit", u.name, fmt.Sprintf("off-%s/%s", scn.price, scn.mode()), strings.Join(needs, ","), strings.Join(scn.offSet(), ","), scn.mode(), c12b01(base), c12b01(changed), c12b01(panicked))
+				tr.Count(fmt.Sprintf("unit:%s:changed=%v", u.name, changed))
+				cells++
+				if panicked {
+					t.Logf("unit %s panicked: %s", u.name, pmsg)
+				}
+				if base && !changed {
+					t.Logf("unit %s (%s) did nothing although every needed feed is on (needs %v)", u.name, scn.price, needs)
+				}
+				hit := false
+				for _, x := range sub {
+					for _, n := range needs {
+						hit = hit || x == n
+					}
+				}
+				if hit && changed {
+					t.Logf("unit %s changed its records with %v %s (needs %v)", u.name, sub, scn.mode(), needs)
+				}
+			}
+		}
+	}
+	tr.Set("unit_cells", cells)
+}
+
+// readSet: the assets whose TWA record (exact key and value as stored in ctx) occurs among the traced reads
+func (w *c12World) readSet(ctx sdk.Context, trace string) []string {
+	type op struct {
+		Operation string `json:"operation"`
+		Key       string `json:"key"`
+		Value     string `json:"value"`
+	}
+	read := map[string]bool{}
+	for _, ln := range strings.Split(trace, "\n") {
+		var o op
+		if ln == "" || json.Unmarshal([]byte(ln), &o) != nil || o.Operation != "read" {
+			continue
+		}
+		read[o.Key+"|"+o.Value] = true
+	}
+	var out []string
+	st := ctx.KVStore(w.app.GetKey(markettypes.StoreKey))
+	for _, name := range c12AssetNames {
+		k := markettypes.TwaKey(w.twaKeys[name])
+		v := st.Get(k)
+		if v != nil && read[base64.StdEncoding.EncodeToString(k)+"|"+base64.StdEncoding.EncodeToString(v)] {
+			out = append(out, name)
+		}
+	}
+	return out
 }
 
 // sweepStage: an unhealthy vault and borrow (collateral price drop), liquidation enabled in both generations, auction
